@@ -166,6 +166,13 @@ func checkFreshDecodeTarget(r *Report, s *Sem, rule string) {
 				args := c.Common().Args
 				tgt := stripConv(args[len(args)-1])
 				al, isLocal := tgt.(*ssa.Alloc)
+				var fld *ssa.FieldAddr
+				if fa, ok := tgt.(*ssa.FieldAddr); ok && !isLocal {
+					// a member of a local value declared for this call (a result struct of the helper goroutine)
+					if base, ok := stripConv(fa.X).(*ssa.Alloc); ok && base.Parent() == f {
+						al, isLocal, fld = base, true, fa
+					}
+				}
 				fresh := isLocal
 				if isLocal {
 					for _, ref := range *al.Referrers() {
@@ -173,6 +180,14 @@ func checkFreshDecodeTarget(r *Report, s *Sem, rule string) {
 						case *ssa.Store:
 							if x.Addr == ssa.Value(al) && !reachesInstr(c, x) {
 								fresh = false // pre-filled before decoding
+							}
+						case *ssa.FieldAddr:
+							if fld != nil && x.Field == fld.Field {
+								for _, r2 := range *x.Referrers() {
+									if st, ok := r2.(*ssa.Store); ok && st.Addr == ssa.Value(x) && !reachesInstr(c, st) {
+										fresh = false
+									}
+								}
 							}
 						}
 					}
@@ -661,14 +676,37 @@ func pendingTableField(s *Sem) *types.Var {
 	if !ok {
 		return nil
 	}
-	for i := 0; i < st.NumFields(); i++ {
-		if m, ok := st.Field(i).Type().Underlying().(*types.Map); ok {
+	for _, f := range flatStructFields(s.p, st) {
+		if m, ok := f.Type().Underlying().(*types.Map); ok {
 			if ch, ok := m.Elem().Underlying().(*types.Chan); ok && typeIs(ch.Elem(), s.p.Type("ResponseCommand")) {
-				return st.Field(i)
+				return f
 			}
 		}
 	}
 	return nil
+}
+
+// flatStructFields: the fields of st and, two levels deep, of its plain struct-typed fields declared in the package
+// (a group of related fields moved into a small private type keeps its meaning).
+func flatStructFields(p *Prog, st *types.Struct) []*types.Var {
+	var flat []*types.Var
+	var collect func(st *types.Struct, d int)
+	collect = func(st *types.Struct, d int) {
+		for i := 0; i < st.NumFields(); i++ {
+			f := st.Field(i)
+			flat = append(flat, f)
+			if n := namedOf(f.Type()); n != nil && d < 2 && n.Obj().Pkg() == p.LimeT {
+				if _, isPtr := f.Type().(*types.Pointer); isPtr {
+					continue
+				}
+				if sub, ok := n.Underlying().(*types.Struct); ok {
+					collect(sub, d+1)
+				}
+			}
+		}
+	}
+	collect(st, 0)
+	return flat
 }
 
 func checkPendingCleanup(r *Report, s *Sem, rule string) {
@@ -698,6 +736,7 @@ func checkPendingCleanup(r *Report, s *Sem, rule string) {
 			}
 			n++
 			exits := walkFrom(fn, in, walkOpts{
+				cutEdge: contradicts(in.Block()),
 				barrier: func(x ssa.Instruction) bool {
 					if _, isDefer := x.(*ssa.Defer); isDefer {
 						return false
